@@ -110,7 +110,8 @@ fn limits(c: &EpCfg) -> Limits {
     l
 }
 
-fn cid_format(c: &EpCfg) -> connection_id::default::Format {
+fn cid_format(c: &EpCfg) -> crate::taps::CidFormat {
+    // the builder of the default format validates the knobs exactly as an application's would be
     let mut b = connection_id::default::Format::builder()
         .with_len(c.cid_len)
         .unwrap()
@@ -121,7 +122,13 @@ fn cid_format(c: &EpCfg) -> connection_id::default::Format {
             .with_lifetime(Duration::from_millis(c.cid_lifetime_ms))
             .unwrap();
     }
-    b.build().unwrap()
+    let _ = b.build().unwrap();
+    crate::taps::CidFormat {
+        rng: Rng::new(vq_util::mix(c.seed, 0xc1d)),
+        len: c.cid_len,
+        lifetime: (c.cid_lifetime_ms > 0).then(|| Duration::from_millis(c.cid_lifetime_ms)),
+        rotate_handshake: c.cid_rotate_handshake,
+    }
 }
 
 fn io_for(handle: &IoHandle, c: &EpCfg, w: &Shared, ep: EpId, rebinds: Vec<u64>) -> io::Io {
